@@ -21,7 +21,8 @@
     nothing; [C07_text_indent] - the canonical layout with any indentation string gives the
     sections back (the indentation width is irrelevant).  What stays partial: the objects built
     from the sections are tied by correspondence; repeated headers (bodies append) and line
-    separators other than "\n" (str.splitlines) are covered by correspondence only. *)
+    non-ASCII line separators (\x85, U+2028/9) are covered by correspondence only / outside the ASCII convention.
+    Every raw line carries its own terminator, any of the ASCII line-break characters of str.splitlines. *)
 From V Require Import base.Prelude base.Strs gen.Tables model.Cfg model.Names model.Lex model.Config
   proofs.ConfigProofs proofs.ConfigTextProofs.
 
@@ -47,41 +48,49 @@ Theorem C07_noise : forall pl names d1 e d2, noise e ->
   /\ addgr_sections (d1 ++ e :: d2) = addgr_sections (d1 ++ d2).
 Proof. exact noise_irrelevant. Qed.
 
-(** the text level: raw lines (headers, indented bodies, noise) joined by newlines *)
-Theorem C07_text : forall rl,
-  forallb raw_ok rl = true -> header_first (flat_map erase rl) ->
-  config_lines (config_text rl) = flat_map erase rl.
+(** the text level: raw lines (headers, indented bodies, noise), each with its own terminator (any of the
+    line-break characters of str.splitlines in ASCII), and a last line without terminator *)
+Theorem C07_text : forall rl last,
+  forallb raw_ok (all_raws rl last) = true -> forallb is_linebreak (map snd rl) = true ->
+  header_first (flat_map erase (all_raws rl last)) ->
+  config_lines (config_text rl last) = flat_map erase (all_raws rl last).
 Proof. exact config_lines_raw. Qed.
 
-Theorem C07_text_sections : forall secs rl,
+Theorem C07_text_sections : forall secs rl last,
   NoDup (map fst secs) -> Forall (fun s => snd s <> []) secs ->
-  forallb raw_ok rl = true -> flat_map erase rl = lines_of secs ->
-  parse_dic (config_lines (config_text rl)) = secs.
+  forallb raw_ok (all_raws rl last) = true -> forallb is_linebreak (map snd rl) = true ->
+  flat_map erase (all_raws rl last) = lines_of secs ->
+  parse_dic (config_lines (config_text rl last)) = secs.
 Proof. exact config_text_sections. Qed.
 
-Theorem C07_text_noise : forall r1 n r2,
-  forallb raw_ok (r1 ++ RNoise n :: r2) = true -> header_first (flat_map erase (r1 ++ r2)) ->
-  config_lines (config_text (r1 ++ RNoise n :: r2)) = config_lines (config_text (r1 ++ r2)).
+Theorem C07_text_noise : forall r1 n c r2 last,
+  forallb raw_ok (all_raws (r1 ++ (RNoise n, c) :: r2) last) = true ->
+  forallb is_linebreak (map snd (r1 ++ (RNoise n, c) :: r2)) = true ->
+  header_first (flat_map erase (all_raws (r1 ++ r2) last)) ->
+  config_lines (config_text (r1 ++ (RNoise n, c) :: r2) last) = config_lines (config_text (r1 ++ r2) last).
 Proof. exact config_text_noise. Qed.
 
-Theorem C07_text_indent : forall ind secs,
-  str_nonempty ind = true -> all_ws ind = true -> no_nl ind = true ->
+Theorem C07_text_indent : forall ind c secs,
+  str_nonempty ind = true -> all_ws ind = true -> no_nl ind = true -> is_linebreak c = true ->
   forallb sec_ok secs = true ->
   NoDup (map fst secs) -> Forall (fun s => snd s <> []) secs ->
-  parse_dic (config_lines (config_text (layout ind secs))) = secs.
+  parse_dic (config_lines (config_text (map (fun r => (r, c)) (layout ind secs)) (RNoise ""))) = secs.
 Proof. exact config_text_layout. Qed.
 
-(** non-vacuity: a text with indentation 1 and 4, a tab, trailing blanks, blank and comment lines *)
-Definition c07_raw : list raw :=
-  [RNoise "!"; RNoise "   "; RHdr "ip access-list extended A" "  ";
-   RBody " " "permit ip any any" ""; RNoise "! comment"; RBody "    " "deny ip any any" " ";
-   RNoise ""; RHdr "interface Gi1" ""; RBody (String "009" "") "ip access-group A in" ""].
+(** non-vacuity: a text with indentation 1 and 4, a tab, trailing blanks, blank and comment lines, "\r\n" and
+    form-feed line ends, the last line without terminator *)
+Definition c07_raw : list (raw * ascii) :=
+  [(RNoise "!", "010"); (RNoise "   ", "010"); (RHdr "ip access-list extended A" "  ", "013"); (RNoise "", "010");
+   (RBody " " "permit ip any any" "", "010"); (RNoise "! comment", "012");
+   (RBody "    " "deny ip any any" " ", "010"); (RNoise "", "010"); (RHdr "interface Gi1" "", "010")]%char.
+Definition c07_last : raw := RBody (String "009" "") "ip access-group A in" "".
 Example C07_text_nonvacuous :
-  forallb raw_ok c07_raw = true
-  /\ flat_map erase c07_raw
+  forallb raw_ok (all_raws c07_raw c07_last) = true
+  /\ forallb is_linebreak (map snd c07_raw) = true
+  /\ flat_map erase (all_raws c07_raw c07_last)
      = lines_of [("ip access-list extended A", ["permit ip any any"; "deny ip any any"]);
                  ("interface Gi1", ["ip access-group A in"])]
-  /\ parse_dic (config_lines (config_text c07_raw))
+  /\ parse_dic (config_lines (config_text c07_raw c07_last))
      = [("ip access-list extended A", ["permit ip any any"; "deny ip any any"]);
         ("interface Gi1", ["ip access-group A in"])].
 Proof. vm_compute. repeat split. Qed.
